@@ -174,7 +174,7 @@ def locs_cases(draw, tier):
         if dims == 0:
             sigs.append(dict(base=bname, dims=0, idx=[[]], style=''))
         elif dims == 1:
-            idx = draw(st.lists(st.one_of(st.integers(0, 12), st.integers(0, 40)), min_size=1, max_size=12, unique=True))
+            idx = draw(st.lists(st.one_of(st.integers(0, 12), st.integers(0, 40), st.sampled_from([98, 99, 100, 101, 1000])), min_size=1, max_size=12, unique=True))
             sigs.append(dict(base=bname, dims=1, idx=[[i] for i in idx], style=draw(st.sampled_from(STYLES1))))
         else:
             rows = draw(st.lists(st.integers(0, 11), min_size=1, max_size=3, unique=True))
@@ -245,5 +245,46 @@ def prop_locs(case):
     return Obs(hi, labels, checks=6)
 
 
-PARTS = [Part('order', prop_order, strategy=order_cases, quick=(8, 250), thorough=(16, 9000)),
+def enum_deep(tier):
+    for n in ([150, 20000] if tier == 'quick' else [150, 400, 20000, 40000]):
+        yield dict(n=n)
+
+
+def prop_deep(case):
+    """very deep circuits: levels beyond 127 / 32767, orders on tens of thousands of nodes"""
+    from vk import bigcirc
+    c, _ = bigcirc.chain(case['n'], 1, 1, 1)
+    N = len(c.nodes)
+    order = list(c.topological_order())
+    if len(order) != N:
+        raise Violation(f'topological_order yields {len(order)} of {N} nodes')
+    pos = {id(n): i for i, n in enumerate(order)}
+    lev = {}
+    for n in order:
+        drivers = [l.driver for l in n.ins if l is not None]
+        if any(pos[id(d)] >= pos[id(n)] for d in drivers):
+            raise Violation(f'node {n.name} before one of its drivers in topological_order')
+        lev[id(n)] = 1 + max(lev[id(d)] for d in drivers) if drivers else 0
+    for n, l in c.topological_order_with_level():
+        if int(l) != lev[id(n)]:
+            raise Violation(f'level of {n.name} = {int(l)}, longest combinational distance from a source = {lev[id(n)]} (circuit depth {max(lev.values())})')
+    lines = list(c.topological_line_order())
+    if len(lines) != len(c.lines) or len({l.index for l in lines}) != len(c.lines):
+        raise Violation('topological_line_order is not a permutation of the lines')
+    rorder = list(c.reversed_topological_order())
+    if len(rorder) != N:
+        raise Violation(f'reversed_topological_order yields {len(rorder)} of {N} nodes')
+    rpos = {id(n): i for i, n in enumerate(rorder)}
+    for n in c.nodes:
+        for l in n.outs:
+            if l is not None and rpos[id(l.reader)] >= rpos[id(n)]:
+                raise Violation(f'node {n.name} before its reader {l.reader.name} in reversed_topological_order')
+    fi = list(c.fanin([c.cells['o']]))
+    if len(fi) != N:
+        raise Violation(f'fanin(output) yields {len(fi)} of {N} nodes of a circuit that is one cone')
+    return Obs(True, [f'depth>{127 if max(lev.values()) < 32768 else 32767}'], checks=5)
+
+
+PARTS = [Part('deep', prop_deep, enumerate=enum_deep, quick=(2, 0), thorough=(4, 0)),
+         Part('order', prop_order, strategy=order_cases, quick=(8, 250), thorough=(16, 9000)),
          Part('locs', prop_locs, strategy=locs_cases, quick=(4, 300), thorough=(8, 12000))]
